@@ -24,7 +24,9 @@ RULE = (
     "unequal length returned once at a generated scheduler call): run() must raise KeyError / "
     "InvalidScheduleError, a state snapshot taken inside the scheduler just before returning must "
     "equal the state after the exception, and calling run() again (well-formed answer) must "
-    "complete and match the model. Non-trivial = two successive schedules overlap in time and one "
+    "complete and match the model. JSON variant: the run is interrupted at a generated scheduler "
+    "call, dumped, loaded, given a fresh scheduler and resumed; the final matrix must still equal "
+    "the overlay of everything submitted (pending multi-period schedules survive). Non-trivial = two successive schedules overlap in time and one "
     "omits a station or reaches beyond the current width."
 )
 ASSUMPTIONS = [
@@ -117,6 +119,33 @@ def prop(spec, rec):
     if sim.schedule_history is not None:
         require(sorted(sim.schedule_history) == sorted(algo.submitted), "schedule_history_periods", lambda: "history %r, submitted %r" % (sorted(sim.schedule_history), sorted(algo.submitted)))
 
+    # the same scenario interrupted at a scheduler call, dumped, loaded and resumed: schedules
+    # submitted before the dump that reach beyond it must survive
+    if not mal and spec.get("json_at") is not None:
+        import warnings
+
+        from acnportal.acnsim import Simulator
+
+        hj = sc.build_sim(spec, crash_at=spec["json_at"])
+        try:
+            sc.run_sim(hj)
+        except sc.Crash:
+            pass
+        with warnings.catch_warnings():
+            warnings.simplefilter("ignore")
+            s2 = Simulator.from_json(hj.sim.to_json())
+        sched2 = sc.make_scheduler(spec)
+        s2.update_scheduler(sched2)
+        h2j = sc.Handle(spec, s2, s2.network, {}, sched2)
+        h2j.feed = hj.feed
+        sc.run_sim(h2j)
+        merged = dict(hj.scheduler.submitted)
+        merged.update(sched2.submitted)
+        Mj = m.overlay(merged, s2.pilot_signals.shape[1])
+        require(Mj.shape[1] <= s2.pilot_signals.shape[1] and np.array_equal(s2.pilot_signals, Mj[:, : s2.pilot_signals.shape[1]]), "pilot_matrix_after_json_resume", lambda: "after a dump/load at period %d the pilot matrix\n%r\ndiffers from the overlay of all submitted schedules\n%r" % (spec["json_at"], s2.pilot_signals, Mj))
+        require(np.array_equal(s2.pilot_signals, P), "pilot_matrix_after_json_resume_vs_uninterrupted", "pilot matrix after dump/load/resume differs from the uninterrupted run")
+        labels.add("json_resume")
+
     # metamorphic: entry order of the mappings is irrelevant
     if not mal:
         h2 = run_once(spec, reverse_order=True)
@@ -182,6 +211,8 @@ def cases(draw):
             if entry.get("vtype") == "nparray":
                 entry["vtype"] = "float"
         spec["malformed"] = {"t": t, "kind": kind, "entry": entry}
+    elif draw(st.integers(0, 2)) == 0:
+        spec["json_at"] = draw(st.sampled_from(sc.Model(spec).invocations))
     return spec
 
 
@@ -193,7 +224,7 @@ def subchecks(tier):
             prop,
             quick=500,
             thorough=40000,
-            floors={"beyond_horizon_at_last_period": 0.04, "malformed_unknown_station": 0.04, "malformed_unequal_length": 0.02, "overlapping_schedules": 0.3, "omits_station": 0.205, "empty_schedule": 0.1},
+            floors={"json_resume": 0.1, "beyond_horizon_at_last_period": 0.04, "malformed_unknown_station": 0.04, "malformed_unequal_length": 0.02, "overlapping_schedules": 0.3, "omits_station": 0.205, "empty_schedule": 0.1},
             min_nontrivial=50,
         )
     ]
